@@ -199,6 +199,8 @@ class OpsMixin(object):
                 if v is None:
                     self.err(node, "module %s has no attribute %s" % (base.name, attr))
                 return v
+            if base.name == "os" and attr == "linesep":
+                return Const("\n")
             return ExtV(base.name + "." + attr)
         if isinstance(base, ExtV):
             return ExtV(base.name + "." + attr)
@@ -235,7 +237,8 @@ class OpsMixin(object):
             if attr == "deriv":
                 return DerivV(base.f, base.order + 1)
             self.err(node, "attribute %s of gradient wrapper" % attr)
-        if isinstance(base, (ListV, DictV, BufV, StrV, SeqV, SetV, LoopDictV, LookupV, Const, SortedV, NTClassV, Num)):
+        if isinstance(base, (ListV, DictV, BufV, StrV, SeqV, SetV, LoopDictV, LookupV, Const, SortedV, NTClassV, Num)) \
+                or type(base).__name__ in ("LoggerV", "SetAccV", "IterV"):
             return BoundBuiltin(base, attr)
         self.err(node, "attribute %s of %r" % (attr, base))
 
@@ -627,11 +630,19 @@ class OpsMixin(object):
             self.depth -= 1
 
     # -------------------------------------------------------------- strings
-    def make_field(self, f, val):
+    def site(self, node):
+        lab = self.stack[-1].label if self.stack else "?"
+        m = self.stack[-1].find_module() if self.stack else None
+        return "%s:%s %s" % (m.relpath if m is not None else "?", getattr(node, "lineno", "?"), lab.split(":")[-1])
+
+    def make_field(self, f, val, node=None):
         conv = f.conv
         if is_strlike(val) and conv in ("s",) and f.width is None:
             return to_node(val)
-        return SFmt(conv, val, f.flags, f.width, f.prec)
+        n = SFmt(conv, val, f.flags, f.width, f.prec)
+        if node is not None:
+            n.site = self.site(node)
+        return n
 
     def printf(self, tmpl, arg, node):
         if not (isinstance(tmpl, Const) and isinstance(tmpl.v, str)):
@@ -650,7 +661,7 @@ class OpsMixin(object):
                     k = Const(p.key).key()
                     if k not in arg.items:
                         self.err(node, "printf key %r missing" % p.key)
-                    out.append(self.make_field(p, arg.items[k][1]))
+                    out.append(self.make_field(p, arg.items[k][1], node))
         else:
             if isinstance(arg, ListV) and arg.kind == "tuple":
                 vals = list(arg.items)
@@ -666,7 +677,7 @@ class OpsMixin(object):
                 if isinstance(p, str):
                     out.append(SLit(p))
                 else:
-                    out.append(self.make_field(p, next(it)))
+                    out.append(self.make_field(p, next(it), node))
         # all-constant result -> constant string
         if all(isinstance(o, SLit) for o in out):
             return Const("".join(o.text for o in out))
@@ -715,7 +726,7 @@ class OpsMixin(object):
                     if p.key not in kwargs:
                         self.err(node, "format key %r missing" % p.key)
                     val = kwargs[p.key]
-                out.append(self.make_field(p, val))
+                out.append(self.make_field(p, val, node))
         if all(isinstance(o, SLit) for o in out):
             return Const("".join(o.text for o in out))
         return StrV(SCat(out))
@@ -725,7 +736,7 @@ class OpsMixin(object):
             sepn = to_node(sep)
         else:
             sepn = SLit(sep.v)
-        seq = seq if isinstance(seq, (ListV, SeqV, ChunkListV)) else self.as_iterable(seq, node)
+        seq = seq if isinstance(seq, ChunkListV) else self.as_iterable(seq, node)
         if isinstance(seq, ListV):
             if all(isinstance(i, Const) and isinstance(i.v, str) for i in seq.items) and isinstance(sepn, SLit):
                 return Const(sepn.text.join(i.v for i in seq.items))
